@@ -211,6 +211,24 @@ def shard_embed(arg):
     return st
 
 
+def check_same_twice(spec, stats):
+    """merge(s, s): one callable contributes through both operands and is still listed once."""
+    from sigtools import signatures
+    stats.case()
+    s = realfn.sig_of(spec, 'f0')
+    try:
+        r = signatures.merge(s, s)
+    except ValueError:
+        return
+    case = {'kind': 'same-twice', 'spec': list(map(list, spec))}
+    src = r.sources
+    for name, lst in src.items():
+        if name != '+depths' and len(set(map(id, lst))) != len(lst):
+            stats.fail('C08/merge/duplicate-in-entry/same-input-twice', case,
+                       'merge(s, s) for s=(%s): sources[%r] lists a callable twice: %r' % (universe.spec_text(spec), name, lst))
+            return
+
+
 def shard_misc(arg):
     start, step, count = arg
     c15._init()
@@ -218,6 +236,8 @@ def shard_misc(arg):
     U = c15._U2
     n = len(U)
     x = start
+    for i in range(0, n, max(1, n // 40)):
+        check_same_twice(U[(i + start) % n], st)
     for c in range(count):
         x = (x + step) % (n * n)
         i, j = divmod(x, n)
@@ -534,6 +554,9 @@ def run(ctx):
 
 
 def replay(case, stats):
+    if case.get('kind') == 'same-twice':
+        check_same_twice(tuple(Par(*p) for p in case['spec']), stats)
+        return
     if case.get('kind') == 'retrieval':
         check_retrieval(case['template'], case['inner'], case['mid'], case['outer'], stats)
     elif case.get('kind') == 'corpus':
